@@ -81,6 +81,14 @@ class System:
                     ops.append(dict(op="F", n=n, dfn=dfn, dmc=dmc, rng=list(r)))
         for i in range(self.W):
             ops.append(dict(op="M", i=i))
+        if root.get("reaccept"):
+            # manual mask edits: re-accept one window; reject one and re-accept another in one step
+            # (same number of accepted windows, different set)
+            for i in range(self.W):
+                ops.append(dict(op="A", i=i))
+                for j in range(self.W):
+                    if i != j:
+                        ops.append(dict(op="X", i=i, j=j))
         for m in itertools.product((True, False), repeat=self.W):
             if sum(m) >= 2 and not all(m):
                 ops.append(dict(op="T", mask=list(m)))
@@ -107,6 +115,14 @@ class System:
             elif op["op"] == "M":
                 o.valid_window_boolean_mask[op["i"]] = False
                 o.valid_peak_boolean_mask[op["i"]] = False
+            elif op["op"] in ("A", "X"):
+                if op["op"] == "X":
+                    o.valid_window_boolean_mask[op["i"]] = False
+                    o.valid_peak_boolean_mask[op["i"]] = False
+                k = op["j"] if op["op"] == "X" else op["i"]
+                if not math.isnan(float(o._main_peak_frq[k])):
+                    o.valid_window_boolean_mask[k] = True
+                    o.valid_peak_boolean_mask[k] = True
             elif op["op"] == "T":
                 hvsrpy.maximum_value_window_rejection(make_records(op["mask"]),
                                                       maximum_value_threshold=1.0,
@@ -347,12 +363,16 @@ def roots(tier, seed):
                 ["p2", "p3", "p5"], ["p2", "steep_up", "p2"], ["twopk", "p4", "up"], ["p1", "q3", "tie"]]
         out = [dict(grid="lin", F=7, shapes=s, depth=2) for s in sets]
         out += [dict(grid="geo", F=7, shapes=s, depth=2) for s in sets[:6]]
+        # histories that look at the statistics between operations, with manual re-acceptance
+        out += [dict(grid="lin", F=7, shapes=s, depth=2, touch=True, reaccept=True) for s in (sets[0], sets[10])]
         return out
     out = []
     for r in A.curve_set_roots([3], 7, A.REDUCED_SHAPES + ["steep_up"], grids=("lin",)):
         out.append(dict(depth=3, **r))
     for r in A.curve_set_roots([4], 7, A.REDUCED_SHAPES, grids=("lin",)):
         out.append(dict(depth=2, **r))
+    for s in (["p2", "p4", "twopk", "p3"], ["p2", "p3", "p5"], ["p1", "q3", "tie"], ["p2", "steep_up", "p2"]):
+        out.append(dict(grid="lin", F=7, shapes=s, depth=3 if len(s) == 3 else 2, touch=True, reaccept=True))
     for s in (["p1", "p2", "p3", "p4", "p5"], ["p2", "twopk", "up", "p4", "q3"],
               ["tie", "plateau", "p3", "steep_up", "p2"]):
         out.append(dict(grid="geo", F=7, shapes=s, depth=2))
@@ -361,7 +381,7 @@ def roots(tier, seed):
 
 def run_root(root, ctx, tier):
     sysm = System(root)
-    explorer.bfs(sysm, root, root["depth"], ctx, key_prefix="C05")
+    explorer.bfs(sysm, root, root["depth"], ctx, key_prefix="C05", touch=bool(root.get("touch")))
     ctx.nontrivial_case((root["grid"], root["shapes"]))
     if len(ctx.samples) < 3:
         ctx.sample(dict(root=root, menu_size=len(sysm.ops), first_ops=sysm.ops[:3] + sysm.ops[-2:]))
